@@ -398,7 +398,23 @@ def h_map_len(ex, st, frame, t, nf, args, dty):
     return [(Sym(o + z3.If(p, BV64(1), BV64(0)), "usize"), None)]
 
 
+def h_ne_via_eq(ex, st, frame, t, nf, args, dty):
+    """<T as PartialEq>::ne for a crate type: the provided method, i.e. the negation of the type's own (derived or
+    hand-written) eq, which is executed."""
+    eqname = t.func[:-2] + "eq" if t.func.endswith("ne") else None
+    body = ex.find_body(eqname) if eqname else None
+    if body is None:
+        raise Unsupported("call to %s (no eq body to negate)" % nf[:120])
+    ex.push_frame(st, body, args, t.dest, t.targets.get("return"))
+
+    def w(ex_, st_, val):
+        return Sym(z3.Not(val.t), "bool")
+    st.frames[-1].ret_wrap = w
+    return "pushed"
+
+
 PEARL_SUMMARIES = [
+    (r"^<(filter::FilterResult|FilterResult|[a-z_:]*::[A-Z]\w*) as PartialEq>::ne$", h_ne_via_eq),
     (r"^(std::collections::)?BTreeMap::get(_mut)?$", h_map_get_mut),
     (r"^(std::collections::)?BTreeMap::contains_key$", h_map_contains_key),
     (r"^(std::collections::)?BTreeMap::insert$", h_map_insert),
